@@ -196,9 +196,9 @@ pub fn exec(line: &str, model: &mut Model) -> Option<Exec> {
         }
         "dec" => {
             let bytes = unhex(t.get(1)?)?;
-            let r = no_panic(|| Bundle::try_from(bytes.as_slice()));
+            let (r, ways) = decode_ways(bytes.as_slice());
             let mut e = Exec::new(match &r { None => "panic".into(), Some(Err(_)) => "err".into(), Some(Ok(b)) => format!("ok {}", show_bundle(b)) });
-            if r.is_none() { e.oracle_fail = Some("decoder panics".into()); }
+            if r.is_none() { e.oracle_fail = Some("decoder panics".into()); } else { e.oracle_fail = ways; }
             e.nontrivial = bytes.len() > 2;
             Some(e)
         }
